@@ -20,7 +20,7 @@ FAMS = [
                    "cancel_kinds": ["scope", "deadline"], **OPTS},
                   [oracles.WaiterObserver], [_posts]),
     PoolMixFamily("C07", "progress-threads", 800, 15000,
-                  {"exec": "threads", **OPTS, "max_callers": 4},
+                  {"exec": "threads", **OPTS, "max_callers": 4, "protos": ["h1"]},
                   [oracles.WaiterObserver], [_posts]),
 ]
 
